@@ -114,6 +114,42 @@ theorem C20_valid (e : Eff) :
     simp only [valid, beq_iff_eq, h1, h2, ite_false]
     split <;> rfl
 
+/-- Validation is idempotent: a configuration that passed validation passes it again unchanged
+    (`inline.Open` validates a configuration that `ParseConfig`'s caller may already have validated). -/
+theorem C20_valid_idempotent (e e' : Eff) (h : valid e = .ok e') : valid e' = .ok e' := by
+  obtain ⟨p, d, c, r, g, n, sd⟩ := e
+  cases d <;> cases r <;> cases c <;> simp [valid, belowMin] at h <;> subst h <;> rfl
+
+/-- A malformed configuration file is reported as such whatever the environment holds: the file
+    is decoded before the environment is consulted. -/
+theorem C20_decode_error_first (l : Layers) (h : ∃ s ∈ l.toList, s.file = .malformed) :
+    parseConfig true l = .error .decode := by
+  obtain ⟨s, hs, hm⟩ := h
+  have : l.toList.any (fun s => s.file == .malformed) = true :=
+    List.any_eq_true.mpr ⟨s, hs, by simp [hm]⟩
+  simp only [parseConfig, ite_true]
+  rw [if_pos this]
+
+/-- The whole of `load` (parse, then validate) when nothing is malformed: it fails exactly when the
+    effective database path or root list is the zero value, and otherwise yields the precedence
+    result with only the directory limit possibly raised. -/
+theorem C20_load (l : Layers) (h : noMalformed l) :
+    load true l =
+      if expected l.dbPath = .Z then .error .emptyDbPath
+      else if expected l.rootDirs = .Z then .error .emptyRootDirs
+      else .ok ⟨expected l.port, expected l.dbPath,
+        if belowMin (expected l.dirCount) then .C else expected l.dirCount,
+        expected l.rootDirs, expected l.gcPeriod, expected l.numWorkers, expected l.sendDuration⟩ := by
+  unfold load
+  rw [C20_precedence l h]
+  show valid _ = _
+  by_cases h1 : expected l.dbPath = .Z
+  · rw [if_pos h1]; exact (C20_valid _).1 h1
+  · rw [if_neg h1]
+    by_cases h2 : expected l.rootDirs = .Z
+    · rw [if_pos h2]; exact (C20_valid _).2.1 h1 h2
+    · rw [if_neg h2]; exact (C20_valid _).2.2 h1 h2
+
 /-- non-vacuity: a mixed configuration -/
 example : load true ⟨⟨.present, .unset⟩, ⟨.absent, .present⟩, ⟨.present, .empty⟩, ⟨.absent, .unset⟩,
     ⟨.present, .present⟩, ⟨.absent, .empty⟩, ⟨.zero, .unset⟩⟩ = .ok ⟨.F, .E, .C, .D, .E, .D, .Z⟩ := rfl
